@@ -624,7 +624,9 @@ print(json.dumps(dict(maxdiff=float(abs(T1 - ref).max()), tmax=float(T1.max())))
     new = ['A', 'B']
     pa = 'POINTS'
     fe = SymObject(None, dict(update_particle_arrays=rec('fe.update')), 'fe')
-    obj = SymObject(cls, dict(pa=pa, func_eval=fe, particle_arrays=None),
+    # the object already holds the PREVIOUS arrays (any list)
+    obj = SymObject(cls, dict(pa=pa, func_eval=fe,
+                              particle_arrays=['OLD_A', 'OLD_B', 'OLD_C']),
                     'self')
     obj.module = m.name
 
